@@ -32,7 +32,6 @@ ASSUMPTIONS = ['CONTENT_LENGTH, when present and non-empty, is accepted by int()
                'chunked framing is exercised with full reads only (short reads: C05/F5)',
                'DefaultConfig.errors_map as generated into coq/gen/Gen.v (RequestError, BodySizeError, BodyParsingError)']
 
-HANG_LIMIT = 4          # seconds per request (a request of this harness takes milliseconds); check.py's own alarm is 20 s
 ACCESS = ['forms', 'files', 'POST', 'json', 'body']
 CT_MP = 'multipart/form-data; boundary=XyZ'
 
@@ -505,7 +504,6 @@ def _run_impl(case):
     seen = {}
     _CUR.update(app=app, case=case, seen=seen)
 
-    signal.alarm(HANG_LIMIT)      # replaces check.py's 20 s alarm for this case: a hang is reported as {'hang': True}
     st = FragStream(case['data'], case['sched'])
     env = environ('POST', '/', **{'wsgi.input': st, 'CONTENT_TYPE': ''.join(chr(c) for c in case['ctype'])})
     if case.get('no_ctype'):
@@ -515,12 +513,12 @@ def _run_impl(case):
     if case['te']:
         env['HTTP_TRANSFER_ENCODING'] = ''.join(chr(c) for c in case['te'])
     status = []
-    out = app(env, lambda s, h, e=None: status.append(s))
-    b''.join(out)
+    # per-request alarm (F.call_guarded: a BaseException nothing in the framework swallows; 2 s, 0.25 s after 3 hangs)
+    done, _ = F.call_guarded(lambda: b''.join(app(env, lambda s, h, e=None: status.append(s))))
+    if not done:
+        return {'hang': True}
     code = int(status[0].split()[0])
     errs = env['wsgi.errors'].getvalue()
-    if 'CaseTimeout' in errs:
-        return {'hang': True}     # the alarm fired inside the request (the framework's catch-all swallowed it)
     obs = dict(status=code, traceback=bool(errs.strip()))
     if errs.strip():
         obs['error'] = errs.strip().split('\n')[-1][:160]
@@ -592,7 +590,7 @@ BPAT = re.compile(r'^multipart/.+?boundary=(.+?)(;|$)')
 
 def oracle(case, obs):
     if obs.get('hang'):
-        return 'request did not terminate'
+        return 'request did not terminate within %.2g s' % F.hang_limit()
     if 'escaped' in obs:
         return 'exception escaped the framework: %s %s' % (obs['escaped'], obs.get('msg'))
     st = obs.get('status')
